@@ -116,6 +116,9 @@ pub struct Sim<W: World> {
     /// (event sequence number, virtual instant) of every poll of endpoint 0's connection task
     pub conn0_polls: Vec<(u64, tokio::time::Instant)>,
     pub trace: Option<Vec<String>>,
+    /// polls after which tokio's cooperative budget of the current turn was used up (only
+    /// constrained tasks consume it)
+    pub budget_exhausted: u64,
     spawn_q: Rc<RefCell<Vec<(String, usize, LocalFut)>>>,
 }
 
@@ -137,6 +140,7 @@ impl<W: World> Sim<W> {
             decisions: if record { Some(vec![]) } else { None },
             conn0_polls: vec![],
             trace: if std::env::var_os("SIM_TRACE").is_some() { Some(vec![]) } else { None },
+            budget_exhausted: 0,
             spawn_q: Rc::new(RefCell::new(vec![])),
         }
     }
@@ -145,6 +149,15 @@ impl<W: World> Sim<W> {
     }
     pub fn spawn(&mut self, name: &str, cls: usize, f: impl Future<Output = ()> + 'static) {
         self.add(name.to_string(), cls, Box::pin(tokio::task::unconstrained(f)));
+    }
+    /// Like `spawn`, but the task stays subject to tokio's cooperative budget (128 operations on
+    /// tokio resources per poll of the *outer* future, shared by all such tasks): once it is used
+    /// up, channel and timer operations return a spurious `Pending` and are woken when the outer
+    /// future next returns to the runtime - what a busy production runtime does to a task. The
+    /// executor already returns to tokio before it declares quiescence, so the deferred wake-ups
+    /// are delivered.
+    pub fn spawn_constrained(&mut self, name: &str, cls: usize, f: impl Future<Output = ()> + 'static) {
+        self.add(name.to_string(), cls, Box::pin(f));
     }
     fn add(&mut self, name: String, cls: usize, fut: LocalFut) {
         let id = self.slots.len();
@@ -252,6 +265,9 @@ impl<W: World> Sim<W> {
                             self.conn0_polls.push((sq, tokio::time::Instant::now()));
                         }
                         let done = fut.as_mut().poll(&mut tcx).is_ready();
+                        if !tokio::task::coop::has_budget_remaining() {
+                            self.budget_exhausted += 1;
+                        }
                         self.digest.u64(((id as u64) << 1) | done as u64);
                         if let Some(t) = &mut self.trace {
                             t.push(format!("{:>6} poll {}{}", self.steps, self.slots[id].name, if done { " (done)" } else { "" }));
